@@ -413,6 +413,39 @@ fn check_model(name: &str, path: &std::path::Path, su: SpeedUnit, gu: GradeUnit,
                 (a, b) => st.violation("interpolated_model", "outside_grid_does_not_fail", 0, || format!("{:?} / {:?}", a, b), case),
             }
         }
+        // inputs that are not finite numbers: an infinite speed or grade is the boundary on that side, and a NaN (a gap in a
+        // grade table parses as one) is outside the grid like any other value that is not inside it - it gets the value of some
+        // boundary point, never an error
+        {
+            let (ms, mg) = (slo + (shi - slo) * 0.3, glo + (ghi - glo) * 0.4);
+            let inf = f64::INFINITY;
+            for (s, g, clamped) in [
+                (inf, mg, Some((s_last, mg))),
+                (-inf, mg, Some((sx[0], mg))),
+                (ms, inf, Some((ms, g_last))),
+                (ms, -inf, Some((ms, gx[0]))),
+                (inf, -inf, Some((s_last, gx[0]))),
+                (f64::NAN, mg, None),
+                (ms, f64::NAN, None),
+                (f64::NAN, f64::NAN, None),
+            ] {
+                st.evaluations += 1;
+                st.transitions += 1;
+                st.traces += 1;
+                let case = || json!({"kind": "model_outside", "model": name, "grid": grid_desc, "declared_units": [su.to_string(), gu.to_string(), eru.to_string()], "speed": format!("{}", s), "grade": format!("{}", g)});
+                match (interp(s, g), clamped.map(|(cs, cg)| interp(cs, cg))) {
+                    (Ok(Ok(v)), Some(Ok(Ok(c)))) => {
+                        if close(v, c, 1e-9) {
+                            st.pass("infinite_input_is_the_boundary");
+                        } else {
+                            st.violation("interpolated_model.non_finite_input", "outside_grid_is_nearest_boundary", 0, || format!("f({}, {}) = {} but at the boundary point {:?} = {}", s, g, v, clamped, c), case);
+                        }
+                    }
+                    (Ok(Ok(v)), None) if v.is_finite() => st.pass("nan_input_does_not_fail"),
+                    (a, _) => st.violation("interpolated_model.non_finite_input", "outside_grid_does_not_fail", 0, || format!("f({}, {}) -> {:?}", s, g, a), case),
+                }
+            }
+        }
         // every speed / grade input unit: cell centres expressed in another unit stay within the surrounding corner values
         let centre_s: Vec<usize> = if sb > 12 { vec![3, sb / 2 - 3, sb - 4] } else { (0..sb - 1).collect() };
         let centre_g: Vec<usize> = if gb > 12 { vec![2, gb / 2 + 2, gb - 4] } else { (0..gb - 1).collect() };
